@@ -53,6 +53,8 @@ set_registry_factory(P, registry)
 
 def backend(h: H):
     base = h.str("base_path")
+    # one backend object serves a table for its whole life: per-instance caches hold whatever earlier calls left there
+    h.reg.stale_state.add("LocalStorageBackend")
     be = h.obj("LocalStorageBackend", base_path=base)
     return be, base
 
